@@ -121,6 +121,18 @@ class SMPose(SMUserList):
         super().__init__(pose)  # initialize UserList
         return pose
 
+    def __getitem__(self, i):
+        """
+        Access value of a pose object (superclass method)
+
+        As for the general case, but the stored values are not validated again:
+        they were checked (or deliberately not checked) when they were stored.
+        """
+        if isinstance(i, slice):
+            return self.__class__([self.data[k] for k in range(*i.indices(len(self)))], check=False)
+        else:
+            return self.__class__(self.data[i], check=False)
+
 # ------------------------------------------------------------------------ #
 
     @property
